@@ -70,6 +70,7 @@ def _worker(a):
     priors = prior_configs(rng)
     b = hconf.Batch(exe, leaks=False, timeout_case=20)
     meta = {}
+    odd_mtimes = 0
     try:
         prior_paths = [b.add_file(p[0]) if p[0] is not None else None for p in priors]
         # aftermath: after the (possibly failing) load of B a valid file C is loaded; when B failed, the tree and the hook log
@@ -85,7 +86,14 @@ def _worker(a):
         for tag, pi, data in cases:
             fileA, before, after = priors[pi]
             if isinstance(data, bytes):
-                pb = b.add_file(data)
+                # what a file says does not depend on when it was written: a few files carry a modification time in the future
+                # (clock stepped back, restored from a host that runs ahead) or far in the past
+                hv = int(vcommon.h([tag])[:8], 16)
+                import time as _t
+                mt = [_t.time() + 3600, _t.time() + 4, 978307200, 0][(hv // 61) % 4] if hv % 61 == 0 else None
+                pb = b.add_file(data, mtime=mt)
+                if mt is not None:
+                    odd_mtimes += 1
             elif data == "missing":
                 pb = os.path.join(b.dir, "does-not-exist.conf")
             else:
@@ -101,7 +109,7 @@ def _worker(a):
     finally:
         b.cleanup()
     out = []
-    stats = {"cases": 0, "loads_failed": 0, "loads_succeeded": 0, "atomicity_checks": 0, "aftermath_checks": 0}
+    stats = {"cases": 0, "loads_failed": 0, "loads_succeeded": 0, "atomicity_checks": 0, "aftermath_checks": 0, "files_with_odd_modification_time": odd_mtimes}
     seen = set()
     refs = {}
     for rec in recs:
